@@ -324,4 +324,63 @@ theorem tokenize_segs (s : Str) (rest : List Str) (hok : SegsOK (s :: rest))
   rw [scan_segs (s :: rest) none hok (by simp), tokLoop_segs s rest hp]
   simp
 
+/-- the same for a relative path `seg/seg/...` -/
+theorem scan_rel (s : Str) (rest : List Str) (hok : SegsOK (s :: rest)) :
+    scan none (s ++ slashJoin rest) = (s, []) :: rest.flatMap (fun s => [(['/'], []), (s, [])]) := by
+  cases rest with
+  | nil =>
+    obtain ⟨hne, hc⟩ := hok
+    cases s with
+    | nil => exact absurd rfl hne
+    | cons c r =>
+      simp only [slashJoin, List.flatMap_nil, List.append_nil]
+      rw [scan_cons]
+      have := scanStep_seg true none c r [] hc (Or.inl rfl) (fun _ => rfl)
+      simp only [List.append_nil] at this
+      rw [this]
+      simp [scan]
+  | cons s2 r2 =>
+    obtain ⟨hne, hc, hrest⟩ := hok
+    cases s with
+    | nil => exact absurd rfl hne
+    | cons c r =>
+      rw [List.cons_append, scan_cons]
+      have hso := slashJoin_slashOrEnd (s2 :: r2)
+      have := scanStep_seg false none c r _ hc hso (fun h => by cases h)
+      rw [this]
+      simp only [List.drop_left']
+      have hprev : (some ((c :: (r ++ slashJoin (s2 :: r2))).getD r.length c)) ≠ some '\\' := by
+        rw [getD_last]
+        have hl := clean_getLast _ (c :: r) (Nat.le_refl _) hc
+        cases hg : (c :: r).getLast? with
+        | none => simp at hg
+        | some x =>
+          rw [hg] at hl
+          simpa using hl
+      rw [scan_segs (s2 :: r2) _ hrest hprev]
+      simp
+
+theorem tokenize_rel_segs (s : Str) (rest : List Str) (hok : SegsOK (s :: rest))
+    (hp : ∀ x ∈ s :: rest, PlainSeg x) :
+    tokenize (s ++ slashJoin rest) = .ok ((s :: rest).map (fun s => Op.name (some (unescape s)))) := by
+  unfold tokenize
+  rw [scan_rel s rest hok]
+  have hps := hp s (by simp)
+  simp only [tokLoop]
+  rw [tokStep_seg _ s hps]
+  simp only
+  rw [tokLoop_segs_aux rest _ s rfl hps.1 (fun x hx => hp x (by simp [hx]))]
+  simp
+
+theorem tokenize_root : tokenize ['/'] = .ok [.top] := by
+  unfold tokenize
+  have hs : scan none ['/'] = [(['/'], [])] := by
+    rw [scan_cons, scanStep_slash none [] (by simp)]
+    simp [scan]
+  rw [hs]
+  simp [tokLoop, tokStep_slash_first]
+
+theorem tokenize_empty : tokenize [] = .ok [] := by
+  simp [tokenize, scan, tokLoop]
+
 end Flatland.Path.Lemmas
